@@ -674,6 +674,9 @@ def builtin_call(self, st, name, args, kwargs, node=None):
         return [(OK, st, self.now(st))]
     if name == "isinstance":
         return self.do_isinstance(st, a[0], a[1])
+    if name == "type" and len(a) == 1 and isinstance(a[0], ExcVal):
+        from .values import ExcType
+        return [(OK, st, ExcType(a[0].cls))]
     if name in ("min", "max") and len(a) >= 2 and all(isinstance(x, Val) and x.ty in (INT, REAL) for x in a):
         real = REAL in [x.ty for x in a]
         terms = [coerce(x, REAL).term if real else x.term for x in a]
